@@ -8,6 +8,8 @@ T="contract-based deductive verification: WP-style VC generation over go/ssa + S
 claimed={
  "C05": dict(text="Runtime half only: the default error encoder writes exactly one header and one body, the status is the one the response object reports, plain errors become a 500 fault, service errors map through the flag table, decoding-error constructors give 400/415 (lemmas over the table). Declared errors are generated code and are not covered.",
              ref="§3 C05", technique=T),
+ "C06": dict(text="Design/runtime half only: requirement inheritance and override in MethodExpr.Finalize (NoSecurity clears, own requirements win, service then API requirements are copied element-wise by copyReqs), scope validation (a scheme validates exactly when every required scope is presented). The generated endpoint wrappers (any-requirement/all-schemes evaluation, credential extraction) are generated code and are not covered.",
+             ref="§3 C06", technique=T),
  "C09": dict(text="Three mechanisms only: (1) the structural hash functions contain no order-dependent range over a map (commutativity obligation for every map range in hashUserType/hashObject), (2) File.Render leaves an existing SkipExist file untouched (ghost file-system model: no mkdir/open/write reached), (3) comparators handed to sort.Slice order the slice being sorted. Template rendering, directory clean-up and process-level repeatability are not covered.",
              ref="§3 C09", technique=T),
  "C11": dict(text="RunDSL: the four phases are global (ghost phase automaton: every WalkSets/prepare/validate/finalize call-site precondition is a barrier obligation), every root registered before the run completes all four phases when nil is returned, finalization never starts on a failed design. The environment (WalkSets callbacks, set runners) and the dependency sort Roots() are assumed contracts; Roots() additionally has a bounded stand-in (all digraphs <= 4 roots x all registration orders), labelled bounded and not counted as proved.",
